@@ -18,7 +18,7 @@ ASSUMPTIONS = ["a value that is 0 mod r contributes the neutral element, so 'abs
 
 def ct_lists(l, tier):
     # "r+v1" is v1 given unreduced; wk.MARK + "v1" is v1 with omitFromKeys set, which encryption must ignore
-    names = [None, "v1", "v2", "r+v1", wk.MARK + "v1"] + (["0", "max", wk.MARK + "v2"] if tier == "thorough" else [])
+    names = [None, "v1", "v2", "r+v1", wk.MARK + "v1", "sp"] + (["0", "max", wk.MARK + "v2"] if tier == "thorough" else [])
     out = []
     for combo in itertools.product(names, repeat=l):
         out.append([[i, c] for i, c in enumerate(combo) if c is not None])
@@ -35,7 +35,7 @@ def as_map(pairs, vals):
 
 
 def name_of(s, vals):
-    for n in ("v1", "v2", "1", "max", "r+v1"):
+    for n in ("v1", "v2", "1", "max", "r+v1", "sp"):
         if vals[n] % ref.r == s:
             return n
     raise KeyError(s)
